@@ -126,6 +126,8 @@ def evalOp (st : DState) (m : Mode) (op : String) (a : List Tok) : Option (DStat
   | "mul_scaled", [.int w, .int q, .int x, .int y] => pure' (rshow toString (mulScaled m w.toNat q.toNat x y))
   | "div_scaled", [.int w, .int q, .int x, .int y] => pure' (rshow toString (divScaled w.toNat q.toNat x y))
   | "clip", [.int x, .int mn, .int mx] => pure' (toString (clip x mn mx))
+  | "num_consts", [.int w, .int q] =>
+    pure' (ints [oneQ q.toNat, negOneQ q.toNat, 0, minI w.toNat, maxI w.toNat])
   -- biquad
   | "bq4", [.int w, .int q, .list [b0, b1, b2, a1, a2, u, mn, mx], .list [x1, x2, y1, y2], .int x0] =>
     pure' (rshow (fun ((p, q', r, s), y) => sp [showList [p, q', r, s], toString y])
@@ -210,12 +212,15 @@ def evalOp (st : DState) (m : Mode) (op : String) (a : List Tok) : Option (DStat
   | _, _ => Option.none
 
 /-! ### float ops: the driver does the comparison itself (bit patterns in, tolerance compare) -/
+/-- Rust's `f32::max` / `f32::min` (IEEE maxNum / minNum): a NaN operand is ignored -/
 def bops32 : BOps Float32 :=
   { zero := 0, add := (· + ·), sub := (· - ·), mul := (· * ·),
-    max := fun a b => if a < b then b else a, min := fun a b => if b < a then b else a }
+    max := fun a b => if a.isNaN then b else if b.isNaN then a else if a < b then b else a,
+    min := fun a b => if a.isNaN then b else if b.isNaN then a else if b < a then b else a }
 def bops64 : BOps Float :=
   { zero := 0, add := (· + ·), sub := (· - ·), mul := (· * ·),
-    max := fun a b => if a < b then b else a, min := fun a b => if b < a then b else a }
+    max := fun a b => if a.isNaN then b else if b.isNaN then a else if a < b then b else a,
+    min := fun a b => if a.isNaN then b else if b.isNaN then a else if b < a then b else a }
 
 def f32eq (a b : Float32) : Bool := a == b || (a.isNaN && b.isNaN)
 def f64eq (a b : Float) : Bool := a == b || (a.isNaN && b.isNaN)
@@ -256,6 +261,11 @@ def evalApprox (op : String) (a : List Tok) (rhs : List Tok) : Option (Bool × S
       let c : FBiquadCfg Float := ⟨f64 b0, f64 b1, f64 b2, f64 a1, f64 a2, f64 u, f64 mn, f64 mx⟩
       let ((m0, m1), my) := fbiquadUpdate2 bops64 c (f64 s0, f64 s1) (f64 x0)
       some (f64eq m0 (f64 p) && f64eq m1 (f64 q) && f64eq my (f64 y), s!"{showList [b64 m0, b64 m1]} {b64 my}")
+  | "f_consts", [.int t], [.list r] =>
+    -- `<f32/f64 as Coefficient>::{ONE, NEG_ONE, ZERO, MIN, MAX}` = 1, -1, 0, -inf, +inf
+    let m : List Int := if t == 32 then [b32 1, b32 (-1), b32 0, b32 (Float32.ofBits 0xff800000), b32 (Float32.ofBits 0x7f800000)]
+      else [b64 1, b64 (-1), b64 0, b64 (Float.ofBits 0xfff0000000000000), b64 (Float.ofBits 0x7ff0000000000000)]
+    some (m == r, showList m)
   | "f_coeff", [.int typ, .int sk, .int sv, .int fr, .int g, .int sh], [.list [r0, r1, r2, r3, r4, r5]] =>
     let cfg : FilterCfg Float := ⟨fOfBits fr, fOfBits g, fOfBits sh, shapeOf sk (fOfBits sv)⟩
     let ((b0, b1, b2), (a0, a1, a2)) := cfg.build floatOps typ.toNat
